@@ -2,6 +2,7 @@
 // Unit cfb: [MS-CFB] compound-file reader of src/cfb.rs (Cfb, Header, Sectors, Directory), verbatim text.
 #![allow(unused_imports, dead_code, unused_variables, unused_mut, unused_assignments)]
 use vstd::prelude::*;
+use vstd::std_specs::iter::IteratorSpec;
 
 verus! {
 
@@ -55,6 +56,56 @@ pub open spec fn sector_in(data: Seq<u8>, size: int, id: int) -> bool {
     0 <= id && (id + 1) * size <= data.len()
 }
 
+/// C06 allocation bound `n <= bound` (bound = bytes of input available). Opaque so that a *failed* bound (a finding) is not
+/// assumed by the verifier in the rest of the function, where it would mask other obligations.
+#[verifier::opaque]
+pub open spec fn alloc_le(n: int, bound: int) -> bool { n <= bound }
+
+/// [MS-CFB] 2.3: sector chain starting at `start`: follow the FAT until ENDOFCHAIN (0xFFFFFFFE).
+/// `None` when the chain is not well formed within `fuel` steps: an id outside the FAT / above MAXREGSECT, or a cycle.
+pub open spec fn fat_chain(fat: Seq<u32>, start: u32, fuel: nat) -> Option<Seq<u32>>
+    decreases fuel
+{
+    if start == 0xFFFF_FFFEu32 { Some(Seq::<u32>::empty()) }
+    else if fuel == 0 || start as int >= fat.len() || start > 0xFFFF_FFFAu32 { None }
+    else {
+        match fat_chain(fat, fat[start as int], (fuel - 1) as nat) {
+            Some(t) => Some(seq![start] + t),
+            None => None,
+        }
+    }
+}
+/// concatenation of the sectors `ids` of the sector space `data`
+pub open spec fn chain_bytes(data: Seq<u8>, size: int, ids: Seq<u32>) -> Seq<u8>
+    decreases ids.len()
+{
+    if ids.len() == 0 { Seq::<u8>::empty() } else { chain_bytes(data, size, ids.drop_last()) + sector(data, size, ids.last() as int) }
+}
+pub open spec fn all_in(data: Seq<u8>, size: int, ids: Seq<u32>) -> bool {
+    forall|i: int| 0 <= i < ids.len() ==> sector_in(data, size, #[trigger] ids[i] as int)
+}
+/// the chain from `start` is well formed and all its sectors lie inside `data`
+pub open spec fn chain_ok(data: Seq<u8>, size: int, fat: Seq<u32>, start: u32, fuel: nat) -> bool {
+    fat_chain(fat, start, fuel) is Some && all_in(data, size, fat_chain(fat, start, fuel).unwrap())
+}
+/// [MS-CFB] 2.6.3: a stream object = the sectors of its chain, cut to the stream size recorded in the directory entry
+/// (`len == 0`: size unknown, the whole chain)
+pub open spec fn stream_bytes(data: Seq<u8>, size: int, fat: Seq<u32>, start: u32, len: int, fuel: nat) -> Seq<u8> {
+    let raw = chain_bytes(data, size, fat_chain(fat, start, fuel).unwrap());
+    if 0 < len < raw.len() { raw.take(len) } else { raw }
+}
+
+/// a well-formed chain does not depend on the fuel
+proof fn lemma_chain_fuel(fat: Seq<u32>, start: u32, f1: nat, f2: nat)
+    requires fat_chain(fat, start, f1) is Some, fat_chain(fat, start, f2) is Some,
+    ensures fat_chain(fat, start, f1) == fat_chain(fat, start, f2),
+    decreases f1,
+{
+    if start != 0xFFFF_FFFEu32 {
+        lemma_chain_fuel(fat, fat[start as int], (f1 - 1) as nat, (f2 - 1) as nat);
+    }
+}
+
 //@@ item src/cfb.rs struct Sectors
 
 impl Sectors {
@@ -66,6 +117,7 @@ impl Sectors {
     pub open spec fn total<R: Read>(&self, r: &R) -> Seq<u8> { self.loaded() + r.rem() }
 }
 
+#[verifier::loop_isolation(false)]
 //@@ impl src/cfb.rs Sectors
 //@@ fn src/cfb.rs Sectors::get props=C13 entry ret=res
 //@@ sig
@@ -91,21 +143,242 @@ impl Sectors {
 //@@ body
         let ghost total = self.total(r);
         let ghost data0 = self.data@;
+        proof {
+            assert(0 <= id as int * self.size as int <= 0xFFFF_FFFF * 4096) by (nonlinear_arith) requires 0 <= id as int <= 0xFFFF_FFFF, 0 <= self.size as int <= 4096;
+        }
 //@@ before /self\.data\.resize/
             //# C06.alloc_bound_resize
-            assert(end as int <= total.len() + self.size);
+            assert(alloc_le(end as int, total.len() + self.size)) by { reveal(alloc_le); }
 //@@ loop 0
                 invariant
                     self.wf(), self.size == old(self).size,
                     start == id as usize * self.size, end == start + self.size,
                     self.data@.len() == end,
                     data0.len() <= len <= end,
-                    data0 == old(self).data@,
+                    data0 == old(self).data@, total == old(self).total(old(r)),
                     self.data@.take(data0.len() as int) == data0,
                     self.data@.take(len as int) + r.rem() == total,
                 decreases end - len,
+//@@ before /let read = /
+                let ghost pre = self.data@;
+                let ghost rem0 = r.rem();
+//@@ before /if read == 0/
+                proof {
+                    let n = read as int;
+                    assert(self.data@ =~= pre.take(len as int) + (rem0.take(n) + pre.subrange(len as int, end as int).skip(n)) + pre.skip(end as int));
+                    assert(self.data@.take(len + n) =~= pre.take(len as int) + rem0.take(n));
+                    assert(rem0 =~= rem0.take(n) + rem0.skip(n));
+                    assert(self.data@.take(len + n) + r.rem() =~= (pre.take(len as int) + rem0));
+                    assert(self.data@.take(data0.len() as int) =~= pre.take(data0.len() as int));
+                }
+//@@ before /return Ok\(&self/
+                    proof {
+                        assert(r.rem().len() == 0);
+                        assert(self.data@.take(len as int) + r.rem() =~= self.data@.take(len as int));
+                        assert(total.len() == len);
+                        assert((id as int + 1) * self.size as int == end as int) by (nonlinear_arith) requires start as int == id as int * self.size as int, end as int == start + self.size;
+                        if start <= len {
+                            assert(self.data@.subrange(start as int, len as int) =~= total.skip(start as int));
+                        }
+                        assert(total == old(self).total(old(r)));
+                        assert(self.size as int == old(self).sz());
+                        assert(len < end);
+                        assert(!sector_in(total, self.size as int, id as int));
+                    }
+//@@ before /Ok\(&self/#1of2
+        proof {
+            assert((id as int + 1) * self.size as int == end as int) by (nonlinear_arith) requires start as int == id as int * self.size as int, end as int == start + self.size;
+            if end as int <= data0.len() {
+                assert(self.data@ == data0);
+                assert(total == data0 + r.rem());
+                assert(self.data@.subrange(start as int, end as int) =~= total.subrange(start as int, end as int));
+            } else {
+                assert(self.data@.take(end as int) =~= self.data@);
+                assert(self.data@.subrange(start as int, end as int) =~= total.subrange(start as int, end as int));
+            }
+        }
+//@@ replace /&mut self\.data\[/ Vec's IndexMut<Range> has no vstd postcondition; std defines it as index_mut on the derefed slice, which vstd specifies
+&mut self.data.as_mut_slice()[
 //@@ replace /map_err\(CfbError::Io\)/ Verus does not support a datatype constructor as a function value; eta-expanded
-map_err(|e| CfbError::Io(e))
+map_err(|e| -> (ce: CfbError) ensures ce is Io { CfbError::Io(e) })
+//@@ end
+//@@ fn src/cfb.rs Sectors::get_chain props=C13 entry ret=res
+//@@ sig
+    requires
+        old(self).wf(),
+    ensures
+        //# C13.chain_frame_size
+        final(self).sz() == old(self).sz() && final(self).wf(),
+        //# C13.chain_frame_data_grows
+        old(self).loaded().len() <= final(self).loaded().len() && final(self).loaded().take(old(self).loaded().len() as int) == old(self).loaded(),
+        //# C13.chain_bytes
+        forall|fuel: nat| #[trigger] chain_ok(old(self).total(old(r)), old(self).sz(), fats@, sector_id, fuel) ==> (match res {
+            Ok(v) => v@ == stream_bytes(old(self).total(old(r)), old(self).sz(), fats@, sector_id, len as int, fuel),
+            Err(e) => e is Io,
+        }),
+        //# C13.chain_conservation
+        forall|fuel: nat| #[trigger] chain_ok(old(self).total(old(r)), old(self).sz(), fats@, sector_id, fuel) && res is Ok
+            ==> final(self).total(final(r)) == old(self).total(old(r)),
+//@@ body
+        let ghost total = self.total(r);
+        let ghost sz = self.sz();
+        let ghost start0 = sector_id;
+        let ghost okx = exists|f: nat| chain_ok(total, sz, fats@, start0, f);
+        let ghost f0 = choose|f: nat| chain_ok(total, sz, fats@, start0, f);
+        let ghost all = fat_chain(fats@, start0, f0).unwrap();
+        let ghost mut fl: nat = f0;
+        let ghost mut done = Seq::<u32>::empty();
+//@@ before /Vec::with_capacity/
+            //# C06.alloc_bound_chain_capacity
+            assert(alloc_le(len as int, total.len() as int)) by { reveal(alloc_le); }
+//@@ loop 0
+            invariant
+                self.wf(), self.sz() == sz, sz == old(self).sz(),
+                total == old(self).total(old(r)), 
+                okx == (exists|f: nat| chain_ok(total, sz, fats@, start0, f)),
+                okx ==> chain_ok(total, sz, fats@, start0, f0),
+                all == fat_chain(fats@, start0, f0).unwrap(),
+                old(self).loaded().len() <= self.loaded().len() && self.loaded().take(old(self).loaded().len() as int) == old(self).loaded(),
+                okx ==> self.total(r) == total,
+                okx ==> done.len() <= all.len() && done == all.take(done.len() as int) && fat_chain(fats@, sector_id, fl) == Some(all.skip(done.len() as int)),
+                okx ==> chain@ == chain_bytes(total, sz, done),
+            decreases fl,
+//@@ before /chain\.extend_from_slice/
+            let ghost chain0 = chain@;
+            let ghost sid = sector_id;
+            proof {
+                if okx {
+                    let cur = fat_chain(fats@, sector_id, fl);
+                    assert(cur is Some && sector_id != 0xFFFF_FFFEu32);
+                    assert(fl > 0 && (sector_id as int) < fats@.len());
+                    let rest = fat_chain(fats@, fats@[sector_id as int], (fl - 1) as nat).unwrap();
+                    assert(cur == Some(seq![sector_id] + rest));
+                    assert((seq![sector_id] + rest).len() >= 1);
+                    assert(done.len() < all.len());
+                    assert(all.skip(done.len() as int)[0] == sector_id);
+                    assert(all[done.len() as int] == sector_id);
+                    assert(all_in(total, sz, all));
+                    assert(sector_in(total, sz, all[done.len() as int] as int));
+                }
+            }
+//@@ after /chain\.extend_from_slice[^;]*;/
+            proof {
+                if okx {
+                    let rest = fat_chain(fats@, fats@[sid as int], (fl - 1) as nat).unwrap();
+                    assert(all.skip(done.len() as int) == seq![sid] + rest);
+                    assert((seq![sid] + rest).skip(1) =~= rest);
+                    assert(all.skip(done.len() as int).skip(1) =~= all.skip(done.len() as int + 1));
+                    assert(rest =~= all.skip(done.len() as int + 1));
+                    assert(done.push(sid) =~= all.take(done.len() as int + 1));
+                    assert(done.push(sid).drop_last() =~= done);
+                    done = done.push(sid);
+                    fl = (fl - 1) as nat;
+                }
+            }
+//@@ before /if len > 0 \{\s*chain\.truncate/
+        proof {
+            if okx {
+                assert(all.skip(done.len() as int).len() == 0);
+                assert(done =~= all);
+                assert forall|fuel: nat| #[trigger] chain_ok(total, sz, fats@, start0, fuel) implies fat_chain(fats@, start0, fuel) == Some(all) by {
+                    lemma_chain_fuel(fats@, start0, fuel, f0);
+                }
+            }
+        }
+//@@ end
+//@@ endimpl
+
+// ---------------------------------------------------------------- directory and container
+//@@ item src/cfb.rs struct Directory
+//@@ item src/cfb.rs struct Cfb
+
+/// abstract directory entry ([MS-CFB] 2.6.1): name, starting sector, stream size
+pub struct DirEnt { pub name: Seq<char>, pub start: u32, pub len: nat }
+
+pub open spec fn has_name(ds: Seq<DirEnt>, n: Seq<char>) -> bool { exists|i: int| 0 <= i < ds.len() && #[trigger] ds[i].name == n }
+/// entry `i` is the only entry called `n`
+pub open spec fn only_name(ds: Seq<DirEnt>, n: Seq<char>, i: int) -> bool {
+    0 <= i < ds.len() && ds[i].name == n && forall|j: int| 0 <= j < ds.len() && #[trigger] ds[j].name == n ==> j == i
+}
+
+impl Directory {
+    pub closed spec fn ent(&self) -> DirEnt { DirEnt { name: self.name@, start: self.start, len: self.len as nat } }
+}
+impl Cfb {
+    /// directory entries in directory-stream order
+    pub closed spec fn dirs(&self) -> Seq<DirEnt> { Seq::new(self.directories@.len(), |i: int| self.directories@[i].ent()) }
+    pub closed spec fn fat(&self) -> Seq<u32> { self.fats@ }
+    pub closed spec fn mini_fat(&self) -> Seq<u32> { self.mini_fats@ }
+    /// sector size of the regular sector space
+    pub closed spec fn ssz(&self) -> int { self.sectors.sz() }
+    /// regular sector space: loaded bytes followed by what the reader still holds
+    pub closed spec fn space<R: Read>(&self, r: &R) -> Seq<u8> { self.sectors.total(r) }
+    /// the mini stream ([MS-CFB] 2.4): 64-byte mini sectors
+    pub closed spec fn mini_stream(&self) -> Seq<u8> { self.mini_sectors.loaded() }
+    pub closed spec fn wf(&self) -> bool { self.sectors.wf() && self.mini_sectors.wf() && self.mini_sectors.sz() == 64 && (self.sectors.sz() == 512 || self.sectors.sz() == 4096) }
+}
+
+// TRUSTED: (A-std) documented behaviour of `slice::Iter::find` / `any`: first element (in order) for which the predicate returns true / whether one exists.
+// `iter_rem` names the elements the iterator has not yet yielded; it is tied to vstd's own `IteratorSpec::remaining` by `axiom_iter_rem`
+// (a separate uninterpreted name is needed because a specification of an `Iterator` impl method may not mention the impl's own spec trait: cyclic).
+pub uninterp spec fn iter_rem<'a, T>(it: &std::slice::Iter<'a, T>) -> Seq<&'a T>;
+#[verifier::external_body]
+pub broadcast proof fn axiom_iter_rem<'a, T>(it: &std::slice::Iter<'a, T>)
+    ensures #[trigger] iter_rem(it) == IteratorSpec::remaining(it) {}
+pub assume_specification<'a, T, P: FnMut(&<std::slice::Iter<'a, T> as Iterator>::Item) -> bool>[ <std::slice::Iter<'a, T> as Iterator>::find::<P> ](it: &mut std::slice::Iter<'a, T>, pred: P) -> (r: Option<<std::slice::Iter<'a, T> as Iterator>::Item>)
+    where std::slice::Iter<'a, T>: Sized
+    ensures
+        match r {
+            Some(x) => exists|i: int| 0 <= i < iter_rem(old(it)).len() && x == iter_rem(old(it))[i] && call_ensures(pred, (&x,), true)
+                && forall|j: int| 0 <= j < i ==> call_ensures(pred, (&iter_rem(old(it))[j],), false),
+            None => forall|i: int| 0 <= i < iter_rem(old(it)).len() ==> call_ensures(pred, (&iter_rem(old(it))[i],), false),
+        };
+pub assume_specification<'a, T, P: FnMut(&'a T) -> bool>[ <std::slice::Iter<'a, T> as Iterator>::any::<P> ](it: &mut std::slice::Iter<'a, T>, pred: P) -> (r: bool)
+    where std::slice::Iter<'a, T>: Sized
+    ensures
+        r ==> exists|i: int| 0 <= i < iter_rem(old(it)).len() && call_ensures(pred, (iter_rem(old(it))[i],), true),
+        !r ==> forall|i: int| 0 <= i < iter_rem(old(it)).len() ==> call_ensures(pred, (iter_rem(old(it))[i],), false);
+/// (proved) re-triggering of vstd's `slice.iter()` postcondition on the slice side
+pub broadcast proof fn lemma_iter_rev<T>(rem: Seq<&T>, ds: Seq<T>, i: int)
+    requires rem.len() == ds.len(), forall|j: int| 0 <= j < rem.len() ==> *rem[j] == ds[j], 0 <= i < ds.len(),
+    ensures #![trigger ds[i], rem.len()] ds[i] == *rem[i],
+{}
+
+/// sectors that lie inside a prefix of the sector space are the same in the whole space
+proof fn lemma_prefix_space(a: Seq<u8>, b: Seq<u8>, size: int, ids: Seq<u32>)
+    requires size > 0, all_in(a, size, ids),
+    ensures all_in(a + b, size, ids), chain_bytes(a + b, size, ids) == chain_bytes(a, size, ids),
+    decreases ids.len(),
+{
+    if ids.len() > 0 {
+        let id = ids.last() as int;
+        assert(sector_in(a, size, ids[ids.len() - 1] as int));
+        assert forall|i: int| 0 <= i < ids.drop_last().len() implies sector_in(a, size, #[trigger] ids.drop_last()[i] as int) by {
+            assert(ids.drop_last()[i] == ids[i]);
+        }
+        lemma_prefix_space(a, b, size, ids.drop_last());
+        assert(id * size >= 0) by (nonlinear_arith) requires id >= 0, size > 0;
+        assert((id + 1) * size == id * size + size) by (nonlinear_arith);
+        assert(sector(a + b, size, id) =~= sector(a, size, id));
+        assert forall|i: int| 0 <= i < ids.len() implies sector_in(a + b, size, #[trigger] ids[i] as int) by {
+            assert(sector_in(a, size, ids[i] as int));
+        }
+    }
+}
+
+//@@ impl src/cfb.rs Cfb
+//@@ fn src/cfb.rs Cfb::has_directory props=C13,C20 ret=b
+//@@ sig
+    ensures
+        //# C13,C20.has_directory_iff_entry
+        b == has_name(self.dirs(), name@),
+//@@ body
+        broadcast use axiom_iter_rem, lemma_iter_rev;
+        proof { assert forall|i: int| 0 <= i < self.dirs().len() implies #[trigger] self.dirs()[i].name == self.directories@[i].name@ by {} }
+//@@ replace /\|d\| / closure parameter and result annotated so that its (verified) postcondition is visible to `any`; body unchanged
+|d: &Directory| -> (b: bool) ensures b == (d.name@ == name@) { 
+//@@ after /\|d\| [^)]*/
+ }
 //@@ end
 //@@ endimpl
 
